@@ -216,6 +216,11 @@ func genCase(rng *rand.Rand, nUpd int) ccase {
 		nh++
 		a := sessgen.RandAttrs(rng, *cfg, nh)
 		u.Attr = a
+		// RFC 4271 lets the attributes come in any order: half of the messages are not in ascending type
+		// order (MP attributes first in either order, last in either order, reversed, shuffled)
+		if rng.IntN(2) == 0 {
+			u.Order, _ = sessgen.RandOrder(rng, u)
+		}
 		c.Updates = append(c.Updates, u)
 	}
 	return c
@@ -362,6 +367,20 @@ func runCase(idx int, raw json.RawMessage) (res batch.Result) {
 		if len(u.Wd)+len(u.MPU) > 0 && nAnn > 0 {
 			res.Count("updates_mixed_announce_withdraw", 1)
 		}
+		if pos := attrPositions(w); !pos.ascending {
+			res.Count("updates_attrs_not_in_type_order", 1)
+			if pos.reach >= 0 && pos.unreach >= 0 && pos.unreach < pos.reach {
+				res.Count("updates_mp_unreach_before_mp_reach", 1)
+				if u.MPRv4 == u.MPUv4 {
+					res.Count("updates_mp_unreach_before_mp_reach_same_family", 1)
+				}
+			}
+			if pos.reach == 0 || pos.unreach == 0 {
+				res.Count("updates_mp_attribute_first", 1)
+			}
+		} else if pos.reach >= 0 && pos.unreach >= 0 {
+			res.Count("updates_mp_reach_before_mp_unreach", 1)
+		}
 		res.Count("nlri_announced", nAnn)
 		res.Count("nlri_withdrawn", len(u.Wd)+len(u.MPU))
 
@@ -468,6 +487,28 @@ func runCase(idx int, raw json.RawMessage) (res batch.Result) {
 	return
 }
 
+type attrPos struct {
+	ascending      bool
+	reach, unreach int // position of MP_REACH_NLRI / MP_UNREACH_NLRI in the encoded attribute list, -1 absent
+}
+
+// attrPositions reads the order of the attributes off the message that is really sent.
+func attrPositions(w *wire.Update) attrPos {
+	p := attrPos{ascending: true, reach: -1, unreach: -1}
+	for i, a := range w.Attrs {
+		if i > 0 && w.Attrs[i-1].Type > a.Type {
+			p.ascending = false
+		}
+		switch a.Type {
+		case wire.AttrMPReach:
+			p.reach = i
+		case wire.AttrMPUnreach:
+			p.unreach = i
+		}
+	}
+	return p
+}
+
 func famOf(v4 bool) wire.Family {
 	if v4 {
 		return wire.IPv4Unicast
@@ -511,7 +552,7 @@ func main() {
 		return
 	}
 	vf.Main("C20", "exploration", func(r *vf.Run) {
-		r.Rule("one session per case: iBGP/eBGP × {IPv4, IPv4+IPv6, IPv4 multiprotocol (+IPv6)} × add-path receive configured per family × add-path send offered per family × capability 65 (incl. a 4-octet peer AS), all negotiated in a real OPEN exchange; then 20 valid UPDATEs over 10 IPv4 + 10 IPv6 adversarial prefixes: 1–12 NLRI per family in classic NLRI / MP_REACH (IPv4 or IPv6), withdrawals in the classic field / MP_UNREACH, announce and withdraw mixed in one message, classic IPv4 + MP IPv6 in one message, distinct / repeated / zero path identifiers under add-path, withdrawals of absent prefixes and of unknown identifiers; attributes ORIGIN, AS_PATH (sequence+set, 2/4-octet), NEXT_HOP or MP next hop, MED, LOCAL_PREF (iBGP), ATOMIC_AGGREGATE, COMMUNITIES (one unique per message), LARGE_COMMUNITIES, ORIGINATOR_ID+CLUSTER_LIST (iBGP), an unknown optional transitive attribute. After every UPDATE the Adj-RIB-In dumps of both families are compared with the model. distinct_nontrivial = UPDATEs that announce ≥ 2 NLRI of one family with path identifiers on an add-path session")
+		r.Rule("one session per case: iBGP/eBGP × {IPv4, IPv4+IPv6, IPv4 multiprotocol (+IPv6)} × add-path receive configured per family × add-path send offered per family × capability 65 (incl. a 4-octet peer AS), all negotiated in a real OPEN exchange; then 20 valid UPDATEs over 10 IPv4 + 10 IPv6 adversarial prefixes: 1–12 NLRI per family in classic NLRI / MP_REACH (IPv4 or IPv6), withdrawals in the classic field / MP_UNREACH, announce and withdraw mixed in one message, classic IPv4 + MP IPv6 in one message, distinct / repeated / zero path identifiers under add-path, withdrawals of absent prefixes and of unknown identifiers; attributes ORIGIN, AS_PATH (sequence+set, 2/4-octet), NEXT_HOP or MP next hop, MED, LOCAL_PREF (iBGP), ATOMIC_AGGREGATE, COMMUNITIES (one unique per message), LARGE_COMMUNITIES, ORIGINATOR_ID+CLUSTER_LIST (iBGP), an unknown optional transitive attribute; half of the messages encode their attributes out of ascending type order (MP_REACH/MP_UNREACH first or last in either mutual order, all reversed, or shuffled), so MP_UNREACH_NLRI precedes MP_REACH_NLRI of the same or the other family in part of the messages that carry both. After every UPDATE the Adj-RIB-In dumps of both families are compared with the model. distinct_nontrivial = UPDATEs that announce ≥ 2 NLRI of one family with path identifiers on an add-path session")
 		r.Assume("LOCAL_PREF of paths learned over eBGP is not compared (the statement does not say which value they carry)",
 			"within one UPDATE the announced and withdrawn (prefix, path id) sets are disjoint, and without add-path a prefix occurs at most once per message",
 			"Adj-RIB-In content is read through the FSM's own adjRIBIn object (hook VerifFSMRIBs → Dump), the object BGPServer.GetRIBIn returns")
@@ -530,6 +571,10 @@ func main() {
 			r.Require("sessions", int64(len(cases)*9/10))
 			r.Require("updates", int64(len(cases)*15))
 			r.Require("updates_with_several_path_ids", 100)
+			r.Require("updates_attrs_not_in_type_order", int64(len(cases)*3))
+			r.Require("updates_mp_unreach_before_mp_reach", int64(len(cases)/20))
+			r.Require("updates_mp_unreach_before_mp_reach_same_family", int64(len(cases)/40))
+			r.Require("updates_mp_attribute_first", int64(len(cases)/2))
 		}
 	})
 }
